@@ -5,4 +5,58 @@ GROUPS = [
   "unwind": 6, "stubs": ["sexp_user_exception"], "min_obligations": 20, "timeout": 120,
   "instances": [{"name": "w%d" % w, "defs": {"W": w}} for w in (1, 2, 3, 4)]},
 ]
-META = {}
+FLAGS = ["-I@BUILD@/shim_small", "-DVERIF_KINDFOLD=1"]
+STR = {"label": "bounded", "harness": "harness/C12/strings.c", "flags": FLAGS,
+       "stubs": ["sexp_user_exception", "sexp_type_exception", "sexp_xtype_exception", "sexp_range_exception", "sexp_make_exception", "sexp_alloc_tagged_aux"],
+       "stub_src": ["harness/stubs.c", "harness/C12/strstubs.c"], "unwind": 12, "min_obligations": 5, "timeout": 300, "mem_gb": 4,
+       "assumptions": ["strings of up to 3 characters; the UTF-8 width of each character is a constant of the instance, the scalar values are symbolic",
+                       "sexp_alloc / sexp_alloc_tagged are alloc_plain stubs returning objects of exactly the requested size; exception constructors are contract stubs"]}
+import itertools
+PAT = [(1, 0, 0), (2, 0, 0), (3, 0, 0), (4, 0, 0), (1, 2, 0), (2, 1, 0), (3, 4, 0), (4, 1, 3), (1, 1, 1), (2, 3, 4)]
+
+
+def pat_instances(extra=None, quick=6):
+    out = []
+    for n, (a, b, c) in enumerate(PAT):
+        d = {"W1": a, "W2": b, "W3": c}
+        d.update(extra or {})
+        out.append({"name": "w%d%d%d" % (a, b, c), "defs": d, "tiers": ["quick", "thorough"] if n < quick else ["thorough"]})
+    return out
+
+
+def set_instances():
+    out = []
+    for (a, b, c) in [(1, 0, 0), (2, 0, 0), (1, 2, 0), (3, 1, 0), (1, 4, 2)]:
+        nch = (a > 0) + (b > 0) + (c > 0)
+        for pos in range(nch):
+            for nw in (1, 2, 3, 4):
+                for off in (0, 2):
+                    for cow in (0, 1):
+                        quick = (a, b, c) in [(1, 0, 0), (1, 2, 0)] and nw in (1, 3) 
+                        out.append({"name": "w%d%d%d_p%d_n%d_o%d_c%d" % (a, b, c, pos, nw, off, cow),
+                                    "defs": {"W1": a, "W2": b, "W3": c, "POS": pos, "NW": nw, "OFF": off, "COW": cow},
+                                    "tiers": ["quick", "thorough"] if quick else ["thorough"]})
+    return out
+
+
+GROUPS.append(dict(STR, name="length_cursor", entry="h_length_cursor", instances=pat_instances(),
+                   functions=["sexp.c:sexp_string_utf8_length", "sexp.c:sexp_string_index_to_cursor", "sexp.c:sexp_string_cursor_to_index", "sexp.c:sexp_string_utf8_ref"],
+                   bound="10 width patterns of 1..3 characters (quick: 6); index symbolic over all fixnums"))
+GROUPS.append(dict(STR, name="string_set", entry="h_string_set", instances=set_instances(),
+                   functions=["eval.c:sexp_string_utf8_set"],
+                   bound="5 width patterns x every position x replacement width 1..4 x string offset {0,2} x copy-on-write {0,1} (quick: 2 patterns, widths 1 and 3)"))
+GROUPS.append(dict(STR, name="utf8_to_string", entry="h_utf8_to_string", instances=pat_instances(None, 2),
+                   functions=["lib/chibi/io/port.c:sexp_utf8_to_string_x", "lib/chibi/io/port.c:sexp_bytes_to_string"],
+                   bound="bytevectors of 2..9 bytes; start and end symbolic over all fixnums"))
+GROUPS.append(dict(STR, name="concatenate", entry="h_concatenate", unwind=16,
+                   instances=[{"name": "w%d%d%d_sep%d" % (a, b, c, sw), "defs": {"W1": a, "W2": b, "W3": c, "SW": sw},
+                               "tiers": ["quick", "thorough"] if (a, b, c) in [(1, 0, 0), (2, 1, 0)] else ["thorough"]}
+                              for (a, b, c) in [(1, 0, 0), (2, 1, 0), (3, 4, 0), (1, 1, 1)] for sw in (1, 2, 3, 4)],
+                   functions=["sexp.c:sexp_string_concatenate_op", "sexp.c:sexp_make_string_op", "sexp.c:sexp_make_bytes_op"],
+                   bound="two strings of 1..3 characters joined by a one-character separator of every UTF-8 width"))
+META = {
+ "trusted_base": ["CBMC 6.11.0 front end and SAT back end", "harness/prelude.h substitutions incl. kind tests on registered objects", "the independent strict UTF-8 decoder / encoder of the harness (RFC 3629) as the abstract view"],
+ "assumptions": ["bounded groups: strings of up to 3 characters, UTF-8 width of each character enumerated per instance, scalar values symbolic"],
+ "not_covered": ["sexp_substring_op / sexp_utf8_substring_op, sexp_string_to_utf8, sexp_c_string, string ports, string comparison", "cursor opcodes (range checks are under C01)",
+                 "Scheme side: string-copy!, string-fill!, (chibi string), SRFI 130", "integer->char of non-scalar values (no range check in the opcode)"],
+}
